@@ -202,6 +202,9 @@ func TestC14(t *testing.T) {
 		scratch = t.TempDir()
 	}
 	os.MkdirAll(scratch, 0o755)
+	if run.Shard == 0 {
+		existingDatabase(run, scratch)
+	}
 	nAck := run.Scale(12, 200)
 	only := -1
 	if v := os.Getenv("VERIF_C14_ONLY"); v != "" {
